@@ -1,12 +1,15 @@
 (* C05 — assignment into a declared array keeps its dims and sums the source by label.
-   Statements only.  PARTIAL: proved are the frame property of numpy indexed assignment (nothing
-   outside the addressed positions changes), preservation of dimensions and size, and the exact-shape
-   rule for whole-array ndarray assignment; that a FlodymArray source is first summed by label is
-   C07_marginal_by_label (setitem calls sum_values_to); the label-level description of WHICH
-   positions a key addresses is carried by the exhaustive correspondence of C06. *)
-From Coq Require Import List Arith.
+   Statements only.  For a FlodymArray source and every well-formed dict key (whole-array assignment is the key
+   without entries) the label-level statement is proved for all targets, keys and sources:
+   C05_dict_assignment_by_label (addressed entries = the source's marginal by label; every other entry unchanged;
+   dimensions kept) and C05_source_lacking_a_region_dimension_refused.  Also: dims/size preservation for every key
+   and right-hand side, the frame of numpy indexed assignment, the exact-shape rule for whole-array ndarray
+   assignment.  Numbers and ndarrays assigned to a slice, and tuple / bare keys, are decided per configuration by
+   the exhaustive correspondence and the oracle. *)
+From Coq Require Import List Arith Ring_theory.
 Import ListNotations.
-From Flodym Require Import Base.ND Base.Env Np.Einsum Np.Index Model.Dims Model.Array Model.SubArray Proofs.IndexProofs.
+From Flodym Require Import Base.ND Base.Env Np.Einsum Np.Index Model.Dims Model.Array Model.SubArray
+  Proofs.ArrayLemmas Proofs.IndexProofs Proofs.OrthoIndex Proofs.HandlerProofs Proofs.GetitemSpec Proofs.SetIndexProofs Proofs.SetitemSpec.
 
 Theorem C05_assignment_keeps_dims_and_size :
   forall (R : Type) (rO rI : R) (radd rmul : R -> R -> R) (a a' : farr R) k r,
@@ -29,3 +32,55 @@ Theorem C05_whole_array_ndarray_needs_exact_shape :
   shp v <> dshape (adims a) -> setitem R rO rI radd rmul a KEllipsis (RNd R v) = Err.
 Proof. exact ellipsis_ndarray_exact_shape. Qed.
 Print Assumptions C05_whole_array_ndarray_needs_exact_shape.
+
+(* target[{...}] = source, source a FlodymArray: by label *)
+Theorem C05_dict_assignment_by_label :
+  forall (R : Type) (rO rI : R) (radd rmul rsub : R -> R -> R) (ropp : R -> R),
+  ring_theory rO rI radd rmul rsub ropp eq ->
+  forall (a y a' : farr R) kvs,
+  wf R a -> wf R y -> wf_dict (adims a) no_asg kvs ->
+  let F := asg_of no_asg kvs in
+  let dout := flat_map (out_for F) (adims a) in
+  no_lists F (adims a) -> distinct_items F (adims a) ->
+  (forall d, In d dout -> lookup (lsizes R y) (dletter d) = dlen d) ->
+  setitem R rO rI radd rmul a (KDict kvs) (RArr R y) = Ok a' ->
+  adims a' = adims a
+  /\ (forall e, (forall d, In d dout -> lookup e (dletter d) < dlen d) ->
+        den R rO a' (src_env F (adims a) e)
+        = sum_env rO radd (sized (lsizes R y) (others R y (letters dout))) (fun e' => den R rO y (e' ++ e)))
+  /\ (forall e, (forall d, In d (adims a) -> lookup e (dletter d) < dlen d) ->
+        ~ in_region F (adims a) e -> den R rO a' e = den R rO a e).
+Proof. exact setitem_dict_spec. Qed.
+Print Assumptions C05_dict_assignment_by_label.
+
+Theorem C05_whole_array_assignment_is_the_empty_key :
+  forall (R : Type) (rO rI : R) (radd rmul : R -> R -> R) (a y : farr R),
+  setitem R rO rI radd rmul a KEllipsis (RArr R y) = setitem R rO rI radd rmul a (KDict []) (RArr R y).
+Proof. exact setitem_ellipsis_is_empty_dict. Qed.
+Print Assumptions C05_whole_array_assignment_is_the_empty_key.
+
+Theorem C05_source_lacking_a_region_dimension_refused :
+  forall (R : Type) (rO rI : R) (radd rmul : R -> R -> R) (a y : farr R) kvs l,
+  wf R a -> wf_dict (adims a) no_asg kvs ->
+  In l (letters (flat_map (out_for (asg_of no_asg kvs)) (adims a))) -> ~ In l (aletters R y) ->
+  setitem R rO rI radd rmul a (KDict kvs) (RArr R y) = Err.
+Proof. exact setitem_missing_dim_refused. Qed.
+Print Assumptions C05_source_lacking_a_region_dimension_refused.
+
+(* non-vacuity: target over (t, r), key {t: second item}, source over (m, r) stored in another order with a
+   surplus dimension m: the premises hold, the assignment succeeds, the addressed row holds the source summed over m,
+   the other row is untouched *)
+Example ex_C05_dict_assignment :
+  let dt := mk_dim 116 0 [10; 11] in let dr := mk_dim 114 1 [20; 21; 22] in let dm := mk_dim 109 2 [30; 31] in
+  let a := mk_farr [dt; dr] [1; 2; 3; 4; 5; 6] in
+  let y := mk_farr [dm; dr] [100; 200; 300; 1000; 2000; 3000] in
+  let kvs := [(KLetter 116, ISingle 11)] in
+  wf_dict (adims a) no_asg kvs
+  /\ setitem nat 0 1 Nat.add Nat.mul a (KDict kvs) (RArr nat y) = Ok (mk_farr [dt; dr] [1; 2; 3; 1100; 2200; 3300]).
+Proof.
+  cbv zeta. split.
+  - apply (wfd_cons _ no_asg (mk_dim 116 0 [10; 11]) (ISingle 11)); simpl; auto.
+    + intros sd E; discriminate.
+    + constructor.
+  - vm_compute. reflexivity.
+Qed.
